@@ -3,6 +3,8 @@
 //!   attr-decode-choppy <hex> <schedule json>   same through a reader that follows a short-read / Interrupted schedule
 //!   attr-roundtrip <json>        build the map from bit patterns, to_writer, from_reader; prints bytes and decoded values
 //!   binary-decode <hex>          rbx_binary::from_reader
+//!   binary-decode-db <hex> <db json>   Deserializer with a custom reflection database; bit-exact tree view
+//!   binary-write-sink <room>     rbx_binary::to_writer of a one-Folder DOM into a sink with room for <room> bytes
 use std::io::Read;
 
 use rbx_types::*;
@@ -100,8 +102,95 @@ fn view(v: &Variant) -> Value {
         Variant::NumberSequence(s) => json!({"NumberSequence": s.keypoints.iter().map(|k| json!([fb(k.time), fb(k.value), fb(k.envelope)])).collect::<Vec<_>>()}),
         Variant::ColorSequence(s) => json!({"ColorSequence": s.keypoints.iter().map(|k| json!([fb(k.time), fb(k.color.r), fb(k.color.g), fb(k.color.b)])).collect::<Vec<_>>()}),
         Variant::Font(x) => json!({"Font": [x.weight.as_u16(), x.style.as_u8(), x.family.as_bytes().to_vec(), x.cached_face_id.as_ref().map(|s| s.as_bytes().to_vec())]}),
+        Variant::Int64(n) => json!({ "Int64": n }),
+        Variant::Ray(r) => json!({"Ray": [fb(r.origin.x), fb(r.origin.y), fb(r.origin.z), fb(r.direction.x), fb(r.direction.y), fb(r.direction.z)]}),
+        Variant::Faces(x) => json!({"Faces": x.bits()}),
+        Variant::Axes(x) => json!({"Axes": x.bits()}),
+        Variant::Enum(e) => json!({"Enum": e.to_u32()}),
+        Variant::Vector3int16(c) => json!({"Vector3int16": [c.x, c.y, c.z]}),
+        Variant::Color3uint8(c) => json!({"Color3uint8": [c.r, c.g, c.b]}),
+        Variant::PhysicalProperties(PhysicalProperties::Default) => json!({"PhysicalProperties": null}),
+        Variant::PhysicalProperties(PhysicalProperties::Custom(c)) => {
+            json!({"PhysicalProperties": [fb(c.density), fb(c.friction), fb(c.elasticity), fb(c.friction_weight), fb(c.elasticity_weight)]})
+        }
+        Variant::SharedString(x) => json!({"SharedString": x.data().to_vec()}),
+        Variant::OptionalCFrame(None) => json!({"OptionalCFrame": null}),
+        Variant::OptionalCFrame(Some(c)) => view(&Variant::CFrame(*c)),
+        Variant::UniqueId(u) => json!({"UniqueId": [u.index(), u.time(), u.random()]}),
         other => json!({ "Other": format!("{:?}", other) }),
     }
+}
+
+/// bit-exact view of a decoded DOM: preorder list of instances; Ref values as preorder positions
+fn tree_view(dom: &rbx_dom_weak::WeakDom) -> Value {
+    let mut order = Vec::new();
+    let mut stack = vec![dom.root_ref()];
+    while let Some(r) = stack.pop() {
+        order.push(r);
+        let inst = dom.get_by_ref(r).unwrap();
+        for c in inst.children().iter().rev() {
+            stack.push(*c);
+        }
+    }
+    let pos = |r: Ref| order.iter().position(|x| *x == r);
+    Value::Array(
+        order
+            .iter()
+            .map(|r| {
+                let inst = dom.get_by_ref(*r).unwrap();
+                let mut props: Vec<(String, Value)> = inst
+                    .properties
+                    .iter()
+                    .map(|(k, v)| {
+                        let vv = match v {
+                            Variant::Ref(t) => json!({"Ref": if t.is_none() { json!(null) } else { json!(pos(*t)) }}),
+                            other => view(other),
+                        };
+                        (k.to_string(), vv)
+                    })
+                    .collect();
+                props.sort_by(|a, b| a.0.cmp(&b.0));
+                json!({"class": inst.class.as_str(), "name": inst.name.as_bytes().to_vec(), "parent": pos(inst.parent()), "props": props})
+            })
+            .collect(),
+    )
+}
+
+fn custom_database(spec: &Value) -> rbx_reflection::ReflectionDatabase<'static> {
+    use rbx_reflection::*;
+    let mut db = ReflectionDatabase::new();
+    for (cname, c) in spec.as_object().unwrap() {
+        let mut cd = ClassDescriptor::new(cname.clone());
+        if let Some(s) = c.get("superclass").and_then(|s| s.as_str()) {
+            cd.superclass = Some(s.to_string().into());
+        }
+        if let Some(props) = c.get("properties").and_then(|p| p.as_object()) {
+            for (pname, p) in props {
+                let dt = if let Some(e) = p.get("enum_type").and_then(|e| e.as_str()) {
+                    DataType::Enum(e.to_string().into())
+                } else {
+                    let vt: VariantType = serde_json::from_value(p["variant_type"].clone()).expect("variant type name");
+                    DataType::Value(vt)
+                };
+                let mut pd = PropertyDescriptor::new(pname.clone(), dt);
+                if let Some(kind) = p.get("kind").and_then(|k| k.as_array()) {
+                    pd.kind = match kind[0].as_str().unwrap() {
+                        "Alias" => PropertyKind::Alias { alias_for: kind[1].as_str().unwrap().to_string().into() },
+                        _ => PropertyKind::Canonical {
+                            serialization: match &kind[1] {
+                                Value::String(s) if s == "DoesNotSerialize" => PropertySerialization::DoesNotSerialize,
+                                Value::Array(a) => PropertySerialization::SerializesAs(a[1].as_str().unwrap().to_string().into()),
+                                _ => PropertySerialization::Serializes,
+                            },
+                        },
+                    };
+                }
+                cd.properties.insert(pname.clone().into(), pd);
+            }
+        }
+        db.classes.insert(cname.clone().into(), cd);
+    }
+    db
 }
 
 fn decoded(a: &Attributes) -> Value {
@@ -175,6 +264,43 @@ pub fn main(args: &[String]) {
                 Ok(dom) => println!("{}", json!({"ok": dom.descendants().count()})),
                 Err(e) => println!("{}", json!({"err": e.to_string()})),
             }
+        }
+        "binary-decode-db" => {
+            // rbx_binary::Deserializer with a database built from the JSON spec; prints the bit-exact tree view
+            let data = unhex(&args[1]);
+            let spec: Value = serde_json::from_str(&args[2]).unwrap();
+            let db = custom_database(&spec);
+            match rbx_binary::Deserializer::new().reflection_database(&db).deserialize(&data[..]) {
+                Ok(dom) => println!("{}", json!({"ok": tree_view(&dom)})),
+                Err(e) => println!("{}", json!({"err": e.to_string()})),
+            }
+        }
+        "binary-write-sink" => {
+            // rbx_binary::to_writer of a one-Folder DOM into a sink with room for <room> bytes (short write up to the limit, then an error)
+            struct Limited {
+                room: usize,
+                got: usize,
+            }
+            impl std::io::Write for Limited {
+                fn write(&mut self, buf: &[u8]) -> std::io::Result<usize> {
+                    let n = buf.len().min(self.room - self.got);
+                    if n == 0 && !buf.is_empty() {
+                        return Err(std::io::Error::new(std::io::ErrorKind::Other, "sink full"));
+                    }
+                    self.got += n;
+                    Ok(n)
+                }
+                fn flush(&mut self) -> std::io::Result<()> {
+                    Ok(())
+                }
+            }
+            let room: usize = args[1].parse().unwrap();
+            let dom = rbx_dom_weak::WeakDom::new(rbx_dom_weak::InstanceBuilder::new("Folder"));
+            let mut full = Vec::new();
+            rbx_binary::to_writer(&mut full, &dom, &[dom.root_ref()]).unwrap();
+            let mut sink = Limited { room, got: 0 };
+            let r = rbx_binary::to_writer(&mut sink, &dom, &[dom.root_ref()]);
+            println!("{}", json!({"total": full.len(), "room": room, "written": sink.got, "ok": r.is_ok()}));
         }
         other => panic!("replayer bytes: unknown command {}", other),
     }
